@@ -35,21 +35,22 @@ func cksum(bs []byte) uint32 {
 }
 
 type tcpConnSpec struct {
-	Kind      string   `json:"kind"` // honest garbage trunc
-	C, S      int      `json:"-"`
-	Key       string   `json:"key,omitempty"`
-	Seed      uint32   `json:"seed"`
-	AKind     int      `json:"akind"`
-	Chunks    [][2]int `json:"chunks,omitempty"`
-	Coalesce  bool     `json:"coalesce,omitempty"`
-	Corrupt   int      `json:"corrupt,omitempty"`
-	N         int      `json:"n,omitempty"`
-	Fin       bool     `json:"fin"`
-	Validate  bool     `json:"validate,omitempty"`
-	ConnectOK bool     `json:"connect_ok"`
-	TOut      [2]int   `json:"tout"`
-	TFirst    bool     `json:"target_first,omitempty"`
-	Seg       int      `json:"seg"` // 0 one write, 1 bytewise head, 2 random pieces
+	Kind       string   `json:"kind"` // honest garbage trunc
+	C, S       int      `json:"-"`
+	Key        string   `json:"key,omitempty"`
+	Seed       uint32   `json:"seed"`
+	AKind      int      `json:"akind"`
+	Chunks     [][2]int `json:"chunks,omitempty"`
+	Coalesce   bool     `json:"coalesce,omitempty"`
+	Corrupt    int      `json:"corrupt,omitempty"`     // wire chunk (1-based) whose ciphertext is corrupted
+	CorruptLen bool     `json:"corrupt_len,omitempty"` // ... in its sealed length block instead of its payload
+	N          int      `json:"n,omitempty"`
+	Fin        bool     `json:"fin"`
+	Validate   bool     `json:"validate,omitempty"`
+	ConnectOK  bool     `json:"connect_ok"`
+	TOut       [2]int   `json:"tout"`
+	TFirst     bool     `json:"target_first,omitempty"`
+	Seg        int      `json:"seg"` // 0 one write, 1 bytewise head, 2 random pieces
 }
 type tcpCaseSpec struct {
 	Cfg   []cfgKey      `json:"cfg"`
@@ -167,7 +168,9 @@ func clientWire(sp *tcpConnSpec, port int) (wire []byte, payload []byte, key *sh
 		for j := 1; j < sp.Corrupt && j <= len(wc); j++ {
 			off += 2 + 16 + len(wc[j-1]) + 16
 		}
-		off += 2 + 16
+		if !sp.CorruptLen {
+			off += 2 + 16
+		}
 		wire[off] ^= 0xff
 	}
 	return wire, payload, key
@@ -460,7 +463,11 @@ func tcpConnTerm(sp *tcpConnSpec, port int) string {
 		for _, c := range sp.Chunks {
 			cs = append(cs, fmt.Sprintf("(%d, %d)", c[0], c[1]))
 		}
-		kind = fmt.Sprintf("CHonest %d %d %d %d %d %s %s %d", sp.C, sp.S, sp.Seed, sp.AKind, port, cListT("(N * N)", cs), cBool(sp.Coalesce), sp.Corrupt)
+		corrupt := 2 * sp.Corrupt
+		if sp.Corrupt > 0 && sp.CorruptLen {
+			corrupt++
+		}
+		kind = fmt.Sprintf("CHonest %d %d %d %d %d %s %s %d", sp.C, sp.S, sp.Seed, sp.AKind, port, cListT("(N * N)", cs), cBool(sp.Coalesce), corrupt)
 	}
 	return fmt.Sprintf("{| k_kind := %s; k_fin := %s; k_validate := %s; k_connect_ok := %s; k_tout := (%d, %d) |}",
 		kind, cBool(sp.Fin), cBool(sp.Validate), cBool(sp.ConnectOK), sp.TOut[0], sp.TOut[1])
